@@ -16,6 +16,8 @@ pub struct TapeRng {
     pub draws: Vec<(usize, usize)>,
     /// after `switch_at` bytes the stream continues from `alt` (tapes equal up to byte n)
     switch_at: Option<usize>,
+    /// ... and back to the original stream from this position on (only one draw replaced)
+    switch_back: Option<usize>,
     alt: Option<ChaCha20Rng>,
 }
 
@@ -34,8 +36,15 @@ impl TapeRng {
             pos: 0,
             draws: Vec::new(),
             switch_at: None,
+            switch_back: None,
             alt: None,
         }
+    }
+    /// A tape equal to `tape` except for the bytes [off, off+len), which come from `other`.
+    pub fn patched(run_seed: u64, tape: i64, other: i64, off: usize, len: usize) -> Self {
+        let mut t = Self::split(run_seed, tape, other, off);
+        t.switch_back = Some(off + len);
+        t
     }
     /// A tape equal to `tape` for the first `n` bytes and to the independent tape `other` afterwards.
     pub fn split(run_seed: u64, tape: i64, other: i64, n: usize) -> Self {
@@ -46,9 +55,20 @@ impl TapeRng {
     }
     fn byte(&mut self) -> u8 {
         let mut b = [0u8; 1];
-        match (self.switch_at, self.alt.as_mut()) {
-            (Some(n), Some(alt)) if self.pos >= n => alt.fill_bytes(&mut b),
-            _ => self.inner.fill_bytes(&mut b),
+        let in_alt = match (self.switch_at, self.switch_back) {
+            (Some(n), Some(m)) => self.pos >= n && self.pos < m,
+            (Some(n), None) => self.pos >= n,
+            _ => false,
+        };
+        if in_alt {
+            self.alt.as_mut().unwrap().fill_bytes(&mut b);
+            if self.switch_back.is_some() {
+                // keep the original stream aligned
+                let mut skip = [0u8; 1];
+                self.inner.fill_bytes(&mut skip);
+            }
+        } else {
+            self.inner.fill_bytes(&mut b);
         }
         self.pos += 1;
         b[0]
